@@ -13,7 +13,7 @@ unmodified layer1/tdma_sched.c working on the real `l1s.tdma_sched`.
   ways, the 9th tdma_schedule / tdma_schedule_set must return -1 and change nothing (memcmp of the
   whole scheduler), every other frame holds sentinels, then 25 frame steps must run exactly what
   was scheduled.
-* Set sweep: every ring position x every offset x 8 set shapes of 1..6 frames (incl. idle frames: 2 and 3 end-of-frame markers in a row) (last frame < 25 ahead),
+* Set sweep: every ring position x every offset x 9 set shapes of 1..6 frames (one scheduled with p3 = 0 over templates with non-zero p3) (incl. idle frames: 2 and 3 end-of-frame markers in a row) (last frame < 25 ahead),
   on an empty scheduler and with witness items in every 4th frame, then 30 frame steps.
 * Reset sweep (in the set sweep jobs): from every ring position an item / a three-item set at every offset 0..24,
   and a ring with an item in every frame; tdma_sched_reset(); 30 frame steps: nothing of a later frame may run.
@@ -45,8 +45,8 @@ QUICK_BFS = [
     ("k3-prio3", "K=3 off=all prio=0,3,7 resched=- sets=- cap=3000000"),
     # two three-item sets (1, 2 and 3 frames long, one with an empty frame) in flight at all offsets
     ("k6-sets123", "K=6 off=all prio=- resched=- sets=1,2,3 cap=400000"),
-    # the six-item three-frame set
-    ("k6-set4", "K=6 off=all prio=- resched=- sets=4 cap=10000"),
+    # the six-item three-frame set, and the set that is scheduled with p3 = 0 over templates carrying non-zero p3
+    ("k6-set4", "K=6 off=all prio=- resched=- sets=4,8 cap=200000"),
     # a three-item set plus single items / a second set on the wrap offsets
     ("k4-sets-wrap", "K=4 off=0,1,24 prio=3 resched=- sets=1,2,3 cap=1500000"),
     # callbacks that call tdma_sched_reset() from inside tdma_sched_execute() (as prim_fbsb.c does) and then schedule
@@ -241,8 +241,8 @@ def run(ctx):
         c["traces_validated_against_impl"] = c["transitions"]
         c["order_cases_expected"] = 2 * sum(n ** n for n in range(1, 9))
         c["capacity_cases_expected"] = 25 * 25 * 4
-        # 8 shapes of 1,1,2,3,3,4,6,5 frames (two of them with idle frames in the middle); a set is in the domain if its last frame is < 25 ahead; x 2 variants x 25 positions
-        c["setsweep_cases_expected"] = 25 * 2 * sum(25 - (f - 1) for f in (1, 1, 2, 3, 3, 4, 6, 5))
+        # 9 shapes of 1,1,2,3,3,4,6,5,2 frames (two with idle frames in the middle, one scheduled with p3 = 0); a set is in the domain if its last frame is < 25 ahead; x 2 variants x 25 positions
+        c["setsweep_cases_expected"] = 25 * 2 * sum(25 - (f - 1) for f in (1, 1, 2, 3, 3, 4, 6, 5, 2))
         c["exhaustive"] = bool(complete and c["frontier_exhausted"] and c["order_cases"] == c["order_cases_expected"]
                                and c["capacity_cases"] == c["capacity_cases_expected"]
                                and c["setsweep_cases"] == c["setsweep_cases_expected"]
